@@ -92,6 +92,8 @@ static void ci_dec_common(FILE *out, const char *id, char **a, int n, int as_int
 static void op_ci_dec(FILE *out, const char *id, char **a, int n) { ci_dec_common(out, id, a, n, 0); }
 static void op_ci_decint(FILE *out, const char *id, char **a, int n) { ci_dec_common(out, id, a, n, 1); }
 
+#include "ops_range.h"
+
 /* ------------------------------------------------------------------ dispatch */
 
 typedef void (*opfn)(FILE *, const char *, char **, int);
@@ -100,7 +102,7 @@ static struct { const char *name; opfn fn; int forked; } OPS[] = {
     {"CI_ENCINT", op_ci_encint, 0},
     {"CI_DEC", op_ci_dec, 0},
     {"CI_DECINT", op_ci_decint, 0},
-#include "zdrv_ops.inc"
+    {"RANGE", op_range, 0},
     {NULL, NULL, 0}
 };
 
